@@ -162,7 +162,7 @@ theorem no_third_participant (c : Ctx) (t : Topic) (a : Actor) (target : Uid) (m
 
 /-- cases 1 and 2 of initTopicP2P cache the requester and the user named in the request, nobody else -/
 theorem made_with_two (c : Ctx) (a : Actor) (peer : Uid) (mode : String) (priv : PrivArg) (userArg : Uid) (re : Bool) (subs : List SubRow)
-    (l d : Int) (c' : Ctx) (i : P2PInit) (h : c.p2pMake a peer mode priv userArg re subs l d = (c', some i)) :
+    (l d : Int) (c' : Ctx) (i : P2PInit) (ro : Bool) (h : c.p2pMake a peer mode priv userArg re subs l d ro = (c', some i)) :
     i.t.perUser.map (·.1) = [a.uid, peer] := by
   unfold Ctx.p2pMake at h
   dsimp only at h
@@ -179,7 +179,7 @@ theorem created_with_two (c : Ctx) (a : Actor) (peer : Uid) (mode : String) (pri
   dsimp only at h
   repeat' split at h
   all_goals (try (simp only [Prod.mk.injEq, Option.some.injEq, reduceCtorEq, and_false] at h))
-  all_goals (try (exact made_with_two _ _ _ _ _ _ _ _ _ _ _ _ h))
+  all_goals (try (exact made_with_two _ _ _ _ _ _ _ _ _ _ _ _ _ h))
   all_goals (try (obtain ⟨_, rfl⟩ := h; simp at hc))
 
 /-- the subscriptions initTopicP2P writes have p2p modes, given that the one it found (if any) has -/
